@@ -32,6 +32,20 @@ RULE = ("media: gens_c11 tensors (generic SPD 6x6 with eigenvalues in [1,500], a
         "followed by 2-6 operations of the CALLER on its own objects (ElasticConstants re-defined through every setter and four "
         "crystal-system methods, arrays / lists overwritten in place, Box re-defined through its setters), other solutions built "
         "from the same objects, evaluations elsewhere, the position array or the returned arrays overwritten.  "
+        "Generator classes carried over from the other properties (in EVERY clause, through the problem generator): exactly structured "
+        "orientations (integer rows: the 24 signed permutations of the axes with integer row lengths, orthogonal right-handed integer "
+        "triples such as [1 1 -2] [1 1 1] [1 -1 0]; handed over as Python ints / integer arrays), the 24 signed-axis pairs for m, n as "
+        "vectors, Burgers vectors in halves of lattice vectors / eighths of the orientation rows; almost-special inputs: rotations 1e-12 .. "
+        "1e-2 degrees from the identity or from a quarter / half / third turn (orientation; m, n), cells 1e-12 .. 1e-6 from cubic / "
+        "hexagonal / tetragonal / orthorhombic, field points 1e-12 .. 1e-3 (relative) off the frame's axes and diagonals, Burgers "
+        "components 1e-12 .. 1e-7 of the largest (either side of tol), the cut approached to 1e-12 r; covariance with Q, R exact signed "
+        "permutations.  Clause forms: every number exactly representable, every array-valued argument and the field points in a drawn "
+        "dtype (float32, float16, big-endian, int8 .. int64, unsigned, bool, lists of numpy scalars; coordinates up to the dtype's "
+        "limits).  Clause units: the physical problem (GPa, angstrom) under reset_units configurations (named, integer seed, SI; half of "
+        "them with stiffness numbers within a few decades of 1), before / between calls.  Clause combos: ENUMERATED ordered pairs of "
+        "orientation spellings x ordered pairs of m, n spellings x tol pairs, second setting through solve() on the object solved with "
+        "the first.  history also keeps a result ledger (every array any call returned, re-judged bit for bit after every later step) "
+        "and judges every solution built from RE-USED objects against one built from copies of them.  "
         "Non-trivial: Burgers vector with at least two non-zero components in the (m,n,xi) frame AND a non-identity "
         "orientation AND non-default m, n (AND the solver accepted the problem); history: at least one object the solver was "
         "handed has actually been modified afterwards.")
@@ -45,9 +59,19 @@ ASSUMPTIONS = ["numpy linear algebra (eig, inv, einsum) is correct",
                "x 1e11, x 1e-12) - a refusal, hence outside 'that the solver accepts'; lengths (field points, Burgers vector) are "
                "of Angstrom scale except in the decades clause, which spans 1e-18 .. 1e+12; a field array of complex dtype whose "
                "imaginary parts are rounding residue (<= 1e-9 of the largest real part) counts as real",
-               "the solver argument tol (decades clause): Burgers components below tol of the largest are dropped from the problem "
-               "that is judged (within 2 % of the threshold: not judged); tol > 1e-8 with Stroh roots closer than 0.05: header "
+               "the solver argument tol (every clause; values other than the default in decades and combos): Burgers components - Cartesian, "
+               "in the solution frame - below tol of the largest are dropped from the problem that is judged (within 2 % of the threshold: "
+               "header only; when this rounding takes the vector out of the slip plane of a frame ALMOST aligned with the axes, the "
+               "isotropic class is outside its documented domain: header only); tol > 1e-8 with Stroh roots closer than 0.05: header "
                "only; tol < 1e-8: a refusal by the self-checks is counted whatever the root separation",
+               "clause units: numericalunits attributes and the way unitconvert.reset_units sets them are correct (C09's subject): my sizes "
+               "of a GPa and an angstrom are products of them; a Stroh refusal of well separated roots is the open finding "
+               "C12:units:stroh-self-checks-absolute-tol... (excluded, counted) where the stiffness NUMBERS are above 1e5 or below 1e-3, a "
+               "violation inside that window and under the default configuration - the assumption on the stiffness scale above is "
+               "thereby no longer silent; the displacement is compared up to its additive constant (ln of the length unit)",
+               "clause forms: a value handed over in a narrow dtype is exactly representable there (checked by round trip), so the call "
+               "with the same values as float64 / int64 arrays is the same problem; box_vects zeroes entries below 3e-9 of the largest, "
+               "so Box's documented 1e-9 clean-up never acts on a cell of mine",
                "ElasticConstants.transform / the Cij setter zero entries below 1e-8 / 1e-9 of the largest and the solver "
                "zeroes Burgers components below 1e-8 of the largest (documented tol): no comparison against my own rotated "
                "tensor is tighter than 3e-8 max|C|",
@@ -68,12 +92,16 @@ LEVEL_TEXT = ("Generated-input exploration of Stroh, IsotropicVolterraDislocatio
               "div sigma = 0 by 4th-order differences, Hooke's law, 1/r scaling, energy tensor against the Barnett-Lothe "
               "integral and the slip-plane traction, covariance, and the isotropic limit against textbook closed forms; point arrays "
               "spanning 12 decades in r in one call (any length unit, other tol values) judged point by point; caller-side histories "
-              "(inputs untouched by the solver, outputs untouched by whatever the caller later does to the objects it handed over).")
+              "(inputs untouched by the solver, outputs untouched by whatever the caller later does to the objects it handed over; result "
+              "ledger; re-used objects); exactly structured and almost-special orientations, axes, cells, points and Burgers vectors in every "
+              "clause; arguments and positions in narrow / unsigned / big-endian / half-precision dtypes; the same physical problem under "
+              "other working-unit configurations; enumerated ordered pairs of option spellings through solve() on one object.")
 TECHNIQUE = ("finite-difference compatibility and equilibrium with derived truncation/rounding bounds, Burgers circuit limit, "
              "own tensor rotation, Barnett-Lothe angular integral for the energy tensor, slip-plane traction identity, "
              "rotation covariance (metamorphic), Hirth-Lothe closed forms, linear convergence of Stroh to the isotropic limit, "
              "per-point relative comparison of array against single-point evaluation over 12 decades, model-free output invariance "
-             "under caller-side mutation histories")
+             "under caller-side mutation histories, bit-for-bit result ledger, float64-reference call for narrow dtypes, dimensionless "
+             "comparison across unit configurations, re-solve = fresh object over enumerated option pairs")
 WALL = {'quick': 64, 'thorough': 600}
 
 EPS = 2.220446049250313e-16
